@@ -9,7 +9,7 @@ Not decided: termination, closest-set condition, parallelism bound, ordering (va
 """
 import re
 from paths import refine_cuts, region_uncovered
-from common import short, field_calls
+from common import nested_closures, map_inserts, short, field_calls
 import guards
 
 EXPLANATION = ("Structural necessary conditions of lookup termination: terminal actions are produced only together with the removal of the "
@@ -107,10 +107,15 @@ def r15_2(ctx, fx):
 
 def r15_3(ctx, fx):
     n = 0
-    for key in sorted(fx.find(r"^protocol::libp2p::kademlia::query::(find_node|get_record|get_providers)::\w+::register_response::\{closure#\d+\}$")):
-        fn = fx.fn(key)
-        if "Option<protocol::libp2p::kademlia::types::KademliaPeer>" not in fn.ret:
-            continue
+    # the filter closures of the three register_response functions (also when the filtering moved into a new helper that
+    # register_response calls: the helper is inlined and its closures count as written there)
+    RR = r"^protocol::libp2p::kademlia::query::(find_node|get_record|get_providers)::\w+::register_response$"
+    filters = {}
+    for k0 in sorted(fx.find(RR)):
+        for cl in nested_closures(fx, fx.fn(k0)):
+            if "Option<protocol::libp2p::kademlia::types::KademliaPeer>" in cl.ret:
+                filters.setdefault(k0, []).append(cl)
+    for key, fn in sorted((cl.key, cl) for cls in filters.values() for cl in cls):
         n += 1
         ctx.bodies.add((fx.cfg, key))
         somes = [nd for nd, s in fn.aggregates(r"option::Option$", "Some")]
@@ -128,8 +133,7 @@ def r15_3(ctx, fx):
                    detail="filter must return Some(candidate) only over the false edge of the %s test applied to the candidate itself (such tests found: %d, Some sites: %d)" % (nm, len(cs), len(somes)))
     # the same filter written as a `for` loop with `continue` guards inside register_response itself: the insertion into `candidates`
     # plays the role of `Some(candidate)`, the loop item that of the closure argument
-    have = {re.sub(r"::register_response::\{closure#\d+\}$", "", k) for k in fx.find(r"^protocol::libp2p::kademlia::query::(find_node|get_record|get_providers)::\w+::register_response::\{closure#\d+\}$")
-            if "Option<protocol::libp2p::kademlia::types::KademliaPeer>" in fx.fn(k).ret}
+    have = {re.sub(r"::register_response$", "", k0) for k0 in filters}
     for key in sorted(fx.find(r"^protocol::libp2p::kademlia::query::(find_node|get_record|get_providers)::\w+::register_response$")):
         if re.sub(r"::register_response$", "", key) in have:
             continue
@@ -163,13 +167,14 @@ def r15_4(ctx, fx):
         fn = fx.fn(key)
         rm = [c for c in fn.calls(r"HashMap(<.*>)?::remove$") if ".pending" in fn.recv(c)]
         fm = [c for c in fn.calls(r"Iterator>?::filter_map$|Iterator>?::filter$")]
-        ins = [c for c in fn.calls(r"BTreeMap(<.*>)?::insert$") if ".candidates" in fn.recv(c)]
+        ins = map_inserts(fn, "candidates", bulk=True)
         if not rm or not ins:
             continue
         n += 1
         ctx.bodies.add((fx.cfg, key))
         nxt = [c for c in fn.calls(r"Iterator>?::next$") if ins[0].node in fn.reach([c.node], after=True) and c.node in fn.reach([ins[0].node], after=True)]
-        intake = [c.node for c in nxt] or [c.node for c in fm]
+        # the intake: the loop that inserts, else the filter feeding it, else the bulk insertion itself (`candidates.extend(..)`)
+        intake = [c.node for c in nxt] or [c.node for c in fm] or [c.node for c in ins if c.name.endswith("::extend")]
         cuts = refine_cuts(fn, rm[0], ["Some", "?"])
         p = fn.witness_path([rm[0].node], [x for x, _ in fn.exits()], avoid=intake, cut=cuts, after=True)
         ctx.ob("R15.4", "%s/accepted-response-always-feeds-candidates" % short(key), bool(intake) and p is None, site=fn.site(rm[0].node), cfg=fx.cfg,
@@ -206,8 +211,10 @@ def r15_5(ctx, fx):
             if any(x.endswith("saturating_add") or x.endswith("checked_add") for x in rs) or any(x.startswith("call:") and "Add" in x for x in rs):
                 kind = "+1"
                 ins = [c.node for c in fn.calls(r"HashMap(<.*>)?::insert$") if ".pending" in fn.recv(c) and ".pending_" not in fn.recv(c)]
-                ok = bool(ins) and node not in fn.reach([fn.entry], avoid=ins)
-                why = "increment only after pending.insert"
+                # on every path through the increment the peer is also filed in `pending`: before it (dominating insert) or after it
+                # (no return without an insert)
+                ok = bool(ins) and (node not in fn.reach([fn.entry], avoid=ins) or not (set(fn.return_nodes()) & fn.reach([node], avoid=ins, after=True)))
+                why = "increment only together with pending.insert (before or after it on every path)"
             elif any(x.endswith("saturating_sub") or x.endswith("checked_sub") for x in rs):
                 kind = "-1"
                 rm = [c for c in fn.calls(r"HashMap(<.*>)?::remove$") if ".pending" in fn.recv(c) and ".pending_" not in fn.recv(c)]
